@@ -165,6 +165,41 @@ class Span:
     def find(self, *segments):
         return self.source.find(*segments, within=self)
 
+    def body_without_nested_fns(self, drop_use=True):
+        """Text of this fn's body (between its outer braces) with the nested `fn` items (and optionally `use` statements) cut out:
+        the function's own statements, verbatim, whatever their shape."""
+        body = self.body()
+        src = self.source
+        code = src.tokens_in(body.start, body.end)
+        cuts, depth, i = [], 0, 0
+        while i < len(code):
+            t = code[i]
+            if t.kind == "punct" and t.text in OPEN:
+                depth += 1
+            elif t.kind == "punct" and t.text in CLOSE:
+                depth -= 1
+            elif depth == 0 and t.kind == "ident" and t.text == "fn":
+                start = src._item_start(t.start)
+                end = src._item_end(i, code)
+                cuts.append((start, end))
+                while i < len(code) and code[i].start < end:
+                    i += 1
+                continue
+            elif depth == 0 and drop_use and t.kind == "ident" and t.text == "use":
+                j = i
+                while code[j].text != ";":
+                    j += 1
+                cuts.append((t.start, code[j].end))
+                i = j + 1
+                continue
+            i += 1
+        out, pos = [], body.start
+        for a, b in sorted(cuts):
+            out.append(src.src[pos:a])
+            pos = b
+        out.append(src.src[pos:body.end])
+        return "".join(out)
+
     def find_all(self, seg):
         return self.source.find_all(seg, within=self)
 
